@@ -27,8 +27,8 @@ print(f'passed={p} failed={f}')")
 echo "$tag | suite: $suite"
 fi
 al=""
-for p in $(./bin/emcheck -list); do
-  o=$(./bin/emcheck -property $p -repo "$T/repo" -verif "$T/verif" 2>&1)
+for p in $(${EMCHECK:-./bin/emcheck} -list); do
+  o=$(${EMCHECK:-./bin/emcheck} -property $p -repo "$T/repo" -verif "$T/verif" 2>&1)
   if echo "$o" | grep -q '^VIOLATION'; then al="$al $p"; echo "$o" | grep -E "rule=" | grep -v '^KNOWN' | cut -c1-${WIDTH:-260} | sed "s/^/    $p /"; fi
   u=$(echo "$o" | grep -c '^UNDECIDED'); [ "$u" != 0 ] && echo "    $p undecided=$u"
 done
